@@ -18,6 +18,12 @@ import "golang.org/x/tools/go/ssa"
 
 func isHandledBuiltinCall(instruction ssa.CallInstruction) bool {
 	if instruction.Common().Value != nil {
+		// Only genuine builtins are handled by name: a user-defined function, method, parameter or variable called
+		// "close", "len", "min", ... is an ordinary callee.
+		if _, isBuiltin := instruction.Common().Value.(*ssa.Builtin); !isBuiltin {
+			return instruction.Common().IsInvoke() && instruction.Common().Method.Name() == "Error" &&
+				len(instruction.Common().Args) == 0
+		}
 		switch instruction.Common().Value.Name() {
 		// for append, copy we simply propagate the taint like in a binary operator
 		case "ssa:wrapnilchk":
